@@ -16,6 +16,9 @@ SIZES = {'quick': 3600, 'thorough': 40000}
 def anm_case(ctx, r):
     game = r.pick(['th07', 'th08', 'th10', 'th12', 'th14', 'th17'])
     nent = r.randint(1, 3)
+    # directed: one name defined in many entries (3..5 definitions: all equal, or equal at first and different later)
+    many_defs = r.chance(0.15)
+    if many_defs: nent = r.randint(3, 5); ctx.count('anm_many_definitions_cases')
     consts = {}
     if r.chance(0.4): consts['BASE'] = r.randint(0, 50)
     text = ''.join('const int %s = %d;\n' % kv for kv in consts.items())
@@ -36,12 +39,12 @@ def anm_case(ctx, r):
         items = []
         lst = []
         for _ in range(r.randint(0, 4)):
-            if names_pool and r.chance(0.12):
+            if names_pool and r.chance(0.7 if many_defs else 0.12):
                 name = r.pick(names_pool)                      # duplicate name across entries
                 if any(name == n for n, _ in lst): continue
             else:
                 name = 'spr%d' % nsp; nsp += 1
-            k = r.wpick([('auto', 5), ('explicit', 3), ('const', 2.5 if consts else 0), ('same-as-before', 1.5 if name in sprites else 0)])
+            k = r.wpick([('auto', 5), ('explicit', 3), ('const', 2.5 if consts else 0), ('same-as-before', (12 if many_defs else 1.5) if name in sprites else 0)])
             if k == 'auto': idv, idtext = next_id, None
             elif k == 'explicit': idv = r.pick([next_id, r.randint(0, 60), max(0, next_id - r.randint(1, 5))]); idtext = str(idv)
             elif k == 'const': idtext, idv = const_id_expr(); idtext = '(%s)' % idtext
@@ -130,9 +133,12 @@ def msg_case(ctx, r):
         if nm not in table.values(): table[r.pick([i for i in range(10, 14) if i not in table])] = nm
     default = r.pick(names) if r.chance(0.6) else None
     tlen = max(table) + 1 + (r.randint(0, 3) if r.chance(0.3) else 0)
-    unknown = r.chance(0.05)
+    unknown = r.chance(0.08)
     rows = ['%d: {script: "%s"}' % (i, nm) for i, nm in sorted(table.items())]
-    if unknown: rows.append('%d: {script: "nosuch"}' % (max(table) + 1)); tlen = max(tlen, max(table) + 2)
+    if unknown and r.chance(0.5):
+        # the unknown name sits in the `default` entry (used for gaps and padding, or not used at all: an error either way)
+        default = 'nosuch'; ctx.count('msg_unknown_default_cases')
+    elif unknown: rows.append('%d: {script: "nosuch"}' % (max(table) + 1)); tlen = max(tlen, max(table) + 2)
     if default: rows.append('default: {script: "%s"}' % default)
     text = 'meta { table: { %s }%s }\n' % (', '.join(rows), (', table_len: %d' % tlen) if (tlen != max(table) + 1 or r.chance(0.3)) and not unknown else '')
     order = list(names); r.shuffle(order)
